@@ -250,7 +250,9 @@ pub mod implementations {
                 bail!("vec_op +push operations require only a single item on the operating stack")
             }
 
-            let new_val = ctx.pop().unwrap();
+            // elements are values: an element produced by an index or field lookup is copied out of
+            // the place it points to instead of aliasing it.
+            let new_val = ctx.pop().unwrap().move_out_of_heap_primitive()?;
 
             let primitive_with_flags: PrimitiveFlagsPair = ctx
                 .load_local(&op_name[1..])
